@@ -140,10 +140,29 @@ def r_module(ctx: Ctx, model, eff: Effects, eps):
             for st in stores:
                 key = ast.unparse(st.slice)
                 guarded = False
+                hit = f"{name}[{key}]"
                 for node in fn.node.body:
+                    if node.lineno >= st.lineno:
+                        continue
+                    # idiom 1: `if key in CACHE: return CACHE[key]`
                     if isinstance(node, ast.If) and ast.unparse(node.test) == f"{key} in {name}" and node.body \
-                            and isinstance(node.body[-1], ast.Return) and ast.unparse(node.body[-1].value) == f"{name}[{key}]" \
-                            and node.lineno < st.lineno:
+                            and isinstance(node.body[-1], ast.Return) and ast.unparse(node.body[-1].value) == hit:
+                        guarded = True
+                    # idiom 2: `try: return CACHE[key]` / `except KeyError: pass`
+                    if isinstance(node, ast.Try) and node.body and isinstance(node.body[0], ast.Return) and ast.unparse(node.body[0].value) == hit \
+                            and any(h.type is not None and "KeyError" in ast.unparse(h.type) for h in node.handlers):
+                        guarded = True
+                    # idiom 3: `v = CACHE.get(key)` followed by `if v is not None: return v`
+                    if isinstance(node, ast.Assign) and ast.unparse(node.value) in (f"{name}.get({key})", f"{name}.get({key}, None)") \
+                            and len(node.targets) == 1 and isinstance(node.targets[0], ast.Name):
+                        var = node.targets[0].id
+                        for n2 in fn.node.body:
+                            if isinstance(n2, ast.If) and ast.unparse(n2.test) == f"{var} is not None" and n2.body \
+                                    and isinstance(n2.body[-1], ast.Return) and ast.unparse(n2.body[-1].value) == var and n2.lineno < st.lineno:
+                                guarded = True
+                # idiom 4: the store itself sits under `if key not in CACHE:`
+                for node in ast.walk(fn.node):
+                    if isinstance(node, ast.If) and ast.unparse(node.test) == f"{key} not in {name}" and any(x is st for b in node.body for x in ast.walk(b)):
                         guarded = True
                 ok = ok and guarded
             ctx.ob(ok, Finding("C04.R-module", fn.where, f"{fn.short}|write-once:{name}",
